@@ -695,7 +695,13 @@ class IteratorQueue(IterableQueue[_ValueT]):
           ) from e
         except Exception as e:  # pylint: disable=broad-exception-caught
           exhausted = is_stop_iteration(e)
-          if (exhausted and result) or (not exhausted and self.ignore_error):
+          # Error skipping is about a failing dequeue: the recorded failure of
+          # the stream itself is raised, after what is already dequeued.
+          if (exhausted and result) or (
+              not exhausted
+              and self.ignore_error
+              and (result or e is not self._exception)
+          ):
             break
           raise e
     with self._enqueue_lock:
